@@ -341,7 +341,11 @@ fn parse_at_rule(
                                     let st =
                                         StepToken::wrap(Token::ParenthesisBlock, peek.position);
                                     let close = ss.append_nested_block(st, input);
+                                    // a condition such as `font-family: a.b` contains no class selector
+                                    // (unless inside `selector(...)`)
+                                    ss.no_class_selector_depth += 1;
                                     convert_class_names_and_rpx_in_block(input, ss);
+                                    ss.no_class_selector_depth -= 1;
                                     ss.append_nested_block_close(close, input);
                                 }
                                 _ => unreachable!(),
@@ -732,6 +736,11 @@ fn convert_class_names_and_rpx_in_block(input: &mut StepParser, ss: &mut StyleSh
                         let close = ss.append_nested_block(next.clone(), input);
                         if is_math_function(func) {
                             convert_rpx_in_block(input, ss, Some(ConvertOptions { in_calc: true }));
+                        } else if func.eq_ignore_ascii_case("selector") {
+                            // `selector(...)` inside a condition holds a selector
+                            let depth = std::mem::replace(&mut ss.no_class_selector_depth, 0);
+                            convert_class_names_and_rpx_in_block(input, ss);
+                            ss.no_class_selector_depth = depth;
                         } else {
                             // e.g. `:not(:is(.a .b))` : still selectors, at any depth
                             convert_class_names_and_rpx_in_block(input, ss);
